@@ -112,6 +112,35 @@ fn fixed() -> Vec<(Vec<Node>, Vec<(String, PSrc)>, RVal)> {
     let f = vec![txt("["), Node::Out(v("it"), vec![]), txt(":"), Node::Out(Expr::Var(Path::name("forloop").dot("index")), vec![]), txt("/"), Node::Out(Expr::Var(Path::name("forloop").dot("length")), vec![]), Node::Out(Expr::Var(Path::name("forloop").dot("last")), vec![]), txt("]")];
     let main = vec![Node::Render { name: Expr::str("f"), mode: RenderMode::For(Coll::Expr(v("xs")), "it".into()), args: vec![] }, Node::Render { name: Expr::str("f"), mode: RenderMode::For(Coll::Range(Expr::int(3), Expr::int(2)), "it".into()), args: vec![] }, txt(".")];
     out.push((main, vec![("f".to_string(), PSrc::Ast(f))], RVal::Object(vec![("xs".into(), RVal::Array(vec![s("u"), s("v"), s("w")]))])));
+    // render-for is the partial's loop: a top-level break in the partial ends the remaining elements
+    // (a continue only the current one), never the caller's enclosing loop; an argument named
+    // `forloop` does not displace the truthful forloop
+    let g = vec![
+        txt("<"),
+        Node::Out(v("it"), vec![]),
+        Node::Out(Expr::Var(Path::name("forloop").dot("index")), vec![]),
+        Node::If { arms: vec![(Cond::atom(Atom::Cmp(v("it"), Op::Eq, v("stop"))), vec![Node::Break])], else_: None },
+        Node::If { arms: vec![(Cond::atom(Atom::Cmp(v("it"), Op::Eq, v("skip"))), vec![Node::Continue])], else_: None },
+        txt(">"),
+    ];
+    let main = {
+        let mut m = vec![Node::For {
+            var: "o".into(),
+            coll: Coll::Range(Expr::int(1), Expr::int(3)),
+            limit: None,
+            offset: None,
+            reversed: false,
+            body: vec![
+                txt("("),
+                Node::Render { name: Expr::str("g"), mode: RenderMode::For(Coll::Range(Expr::int(1), Expr::int(4)), "it".into()), args: vec![("stop".into(), v("o")), ("skip".into(), Expr::int(1)), ("forloop".into(), Expr::str("fake"))] },
+                txt(")"),
+            ],
+            else_: None,
+        }];
+        m.extend(probe());
+        m
+    };
+    out.push((main, vec![("g".to_string(), PSrc::Ast(g))], data.clone()));
     // one include/render tag whose name changes from pass to pass (and finally names nothing)
     for (names, tag_is_include) in [(vec!["p", "q2", "p"], true), (vec!["q2", "p"], false), (vec!["p", "missing"], true), (vec!["p", "q2", "missing"], false)] {
         let tag = if tag_is_include {
